@@ -762,10 +762,19 @@ func run(ctx *common.Ctx) error {
 		}
 		return mimegen.LeafSignature(ast), nil
 	}
+	// minimised inputs of fixed defects first (plain CRLF rendering and bare LF)
+	for k, tree := range mimegen.CorpusTrees() {
+		for _, lf := range []bool{false, true} {
+			res.Count("corpus")
+			if _, err := runTree(1000+k, tree, &mimegen.Layout{Rng: common.NewRng(1), LF: lf}, true, "-corpus"); err != nil {
+				return err
+			}
+		}
+	}
 	for i := 0; i < nTrees && r.timeouts < maxTimeouts; i++ {
 		ascii := i%2 == 0
 		prefix := rng.Chance(0.35)
-		g := &mimegen.Gen{Rng: rng, MaxBody: 60, ASCII: ascii, MsgChainLeaf: true, Bare: true, NoClose: !prefix, Prefix: prefix, EmptyFields: true}
+		g := &mimegen.Gen{Rng: rng, MaxBody: 60, ASCII: ascii, MsgChainLeaf: true, Bare: true, NoClose: true, Prefix: prefix, EmptyFields: true, WideNames: true}
 		depth := rng.Range(0, 3)
 		if i%25 == 24 {
 			depth = 5
